@@ -95,6 +95,9 @@ class C10(Prop):
         return bool(case['zeros'])
 
     def finding_key(self, case, clause, detail):
+        if clause == 'mass-sums-to-total' and (detail or {}).get('max_abs_potential', 0) >= 1e15:
+            # float cancellation regime of belief propagation (potentials beyond 1/eps, see C08): keyed separately, still a violation
+            return 'bounded:%s:potentials>=1e15' % clause
         return 'bounded:%s' % clause
 
     def run_case(self, case):
@@ -128,7 +131,13 @@ class C10(Prop):
             model = engine.estimate(ms, total=step['total'], engine=step['engine'])
             total = float(model.total)
             bound = 0.0 if step['engine'] == 'MD' else 1e-90 * total
-            ctx = dict(call=k, engine=step['engine'], model_cliques=[list(c) for c in model.cliques], has_marginals=hasattr(model, 'marginals'))
+            pmax = 0.0
+            for f in model.potentials.values():
+                v = np.asarray(f.values, dtype=float)
+                v = np.abs(v[np.isfinite(v)])
+                pmax = max(pmax, float(v.max()) if v.size else 0.0)
+            ctx = dict(call=k, engine=step['engine'], model_cliques=[list(c) for c in model.cliques], has_marginals=hasattr(model, 'marginals'),
+                       max_abs_potential=pmax)
             for q in queries:
                 a, lab = MC.factor_array(model.project(q), q)
                 inq = any(set(q) <= set(cl) for cl in model.cliques)
